@@ -41,6 +41,7 @@ struct Col {
     // (signed numbers, unsigned bytewise byte arrays), 1 unsigned integers (INTEGER(.., false)), 2 signed big-endian two's complement of
     // equal length (DECIMAL on FIXED_LEN_BYTE_ARRAY), 3 an order the peer does not implement (DECIMAL on BYTE_ARRAY, FLOAT16): it then states no min/max
     int order = 0;
+    int logical = 0, lp1 = 0, lp2 = 0;   // annotation as on the Node
 };
 
 // one column chunk: one (def, rep) entry per level entry, values dense (only entries with def == max_def)
@@ -75,6 +76,7 @@ static inline void derive_leaves_rec(const Node& n, std::vector<std::string>& pa
     path.push_back(n.name);
     if (n.leaf) {
         Col c; c.name = n.name; c.path = path; c.type = n.type; c.rep = n.rep; c.tlen = n.tlen; c.max_def = d; c.max_rep = r;
+        c.logical = n.logical; c.lp1 = n.lp1; c.lp2 = n.lp2;
         if (n.logical == 10 && n.lp2 == 0) c.order = 1;
         else if (n.logical == 5 && n.type == T_FLBA) c.order = 2;
         else if ((n.logical == 5 && n.type == T_BA) || n.logical == 15) c.order = 3;
